@@ -167,7 +167,15 @@ _add("C11", "64-bit and high-bits-only hash functions, IPv6 literals as HashClie
 _add("C13", "Server 0 is a UNIX socket in a third of the targeted and a quarter of the random sequences. Whether a contact was a memcached-error exchange is decided from the server's own reply, because ignore_exc swallows the exception.")
 _add("C14", "Strings outside Latin-1 include lone surrogates and 100-400 character strings.")
 _add("C15", "One serde object per configuration serves the whole run, and a second serialize is forced while one is in progress on the same object (re-entrantly through __reduce__, and from a second thread released from inside the first dump).")
-_add("C17", "Sessions of 2-4 calls through ONE RetryingClient (every call has the full budget); outcomes that are not Exceptions (KeyboardInterrupt, SystemExit, a BaseException subclass) are never retried and reach the caller.")
+_add("C17", "Sessions of 2-4 calls through ONE RetryingClient (every call has the full budget); outcomes that are not Exceptions (KeyboardInterrupt, SystemExit, a BaseException subclass) are never retried and reach the caller. Two threads with one call each on one wrapper are run under the deterministic scheduler (every schedule with <=2/3 preemptions at line granularity inside retrying.py): each caller gets its own result or its own final exception.")
+_add("C02", "Commands without a key (version, quit, shutdown [graceful]) and every operation called with only its required arguments (documented defaults on the wire) are judged too; every shard (a fresh process) starts with a caller's slip outside the statement (a bool where an integer belongs) followed by well-formed calls whose integers equal the slipped value.")
+_add("C06", "Fire-and-forget misc commands and quit are in the operation list; after C13's random fail-over histories close()/quit()/disconnect_all() on the HashClient must leave no socket open; sends that fail part-way and EAGAIN receive time-outs are fault kinds.")
+_add("C08", "Every thread reads its own item, delivered in two pieces with a scheduling point in between; an object factory failing for one thread's checkout is combined with idle expiry.")
+_add("C09", "A read whose first reply line is a memcached error line failed on its connection even when ignore_exc turned it into a miss; idle timeouts that are not whole seconds.")
+_add("C10", "UNIX-socket stacks; histories in which two calls are interrupted (every site x every site for 4x3 operation pairs).")
+_add("C12", "The empty server key is one of the server keys.")
+_add("C16", "Arguments are also passed positionally in the order of Client's signature (gat/gats excepted), noreply=None explicitly, boundary keys (empty with a prefix, at the length limit, non-ASCII, non-UTF-8 bytes), the *_multi/disconnect_all aliases, and raw_command/version/stats/flush_all/quit/close on the stacks that offer them; sessions of 3-6 calls on one object per stack are compared step by step.")
+_add("C19", "Two nodes on one host/IP with different ports, a node replaced under its old name and port (DNS follows the advertised machine), use_vpc given as 1/0.")
 _add("C18", "The order is also (re)configured after construction through the public caches attribute, and 12-call sessions run on one FallbackClient while the caches' contents change.")
 _add("C20", "Clients whose server refuses connections are a further entry point (17 operations in rotation): an illegal key is still MemcacheIllegalInputError, not the connection error.")
 
